@@ -146,6 +146,11 @@ def module_devs(tkey, seed=0, spikes="all", opt8="all"):
     if t.type == "Vorbis player":
         for v in (b"", b"\0", b"OggS" + bytes(range(256)), b"\xff" * 1000):
             devs.append({"k": "attr", "n": "data", "v": v})
+    if t.type == "MetaModule":
+        # user-defined controllers: count n, with a MIDI binding and a label on the LAST exposed one
+        for n in (1, 2, 27, 96):
+            devs.append({"k": "mmud", "c": n, "cmid": [3, 1, 0, 9], "label": f"ud{n}"})
+        devs.append({"k": "mmud", "c": 3, "cmid": [0, 0, 0, 0], "label": None})
     if t.type == "MultiCtl":
         for i in (0, 1, 15):
             for v in ([0, 0x8000, 1], [0x8000, 0, 2], [1, 2, 255], [U32_MAX, U32_MAX, U32_MAX]):
@@ -166,6 +171,8 @@ def dev_field(d):
         return (("arr", d["p"], d["i"]), ("arr", d["p"]))
     if k == "mcmap":
         return (("mcmap", d["i"]),)
+    if k == "mmud":
+        return (("mmud",), ("opt", "user_defined_controllers"))
     return ((k,),)
 
 
@@ -251,6 +258,16 @@ def apply_dev(mod, d):
     elif k == "mcmap":
         mp = mod.mappings.values[d["i"]]
         mp.min, mp.max, mp.controller = d["v"]
+    elif k == "mmud":
+        from rv.cmidmap import MidiMessageType, Slope
+
+        n = d["c"]
+        mod.user_defined_controllers = n
+        cm = mod.controller_midi_maps[f"user_defined_{n}"]
+        ty, ch, sl, par = d["cmid"]
+        cm.message_type, cm.channel, cm.slope, cm.message_parameter = MidiMessageType(ty), ch, Slope(sl), par
+        if d.get("label") is not None:
+            mod.user_defined[n - 1].label = d["label"]
     else:
         raise ValueError(k)
 
